@@ -690,6 +690,10 @@ pub fn run(prop: &'static str, args: vcore::Args) -> i32 {
         eprintln!("layer max_tx={} entities={} depth={}: states so far {} ({:.1}s)", cfg.max_tx, cfg.entities, cfg.depth, rep.states, rep.elapsed_s() - t0);
     }
     rep.traces_validated = rep.transitions; // every transition is executed on the real manager
+    for m in &args.merge {
+        // threaded layer (engine SCHED, scenario S7): schedules explored under the controlled scheduler
+        rep.merge_partial(m, "sched_layer");
+    }
     rep.assumptions.push("data semantics of reads (which version a read observes) are attached by the harness: last version committed before the reader began, or its own write".into());
     rep.finish()
 }
